@@ -52,6 +52,13 @@ impl Prop for C01 {
         if !thorough {
             units.retain(|u| u.cfg.kv.is_empty() || u.key.ends_with("/L0"));
         }
+        // A multi-line string literal inside an unparsable macro body is re-indented by rustfmt (its value
+        // changes: known finding). The two atoms that carry one are explored in their first context, one-line
+        // layout, default configuration only, so that the root cause is listed a handful of times.
+        units.retain(|u| {
+            let has = u.text.contains("\"str\ning\"") || u.text.contains("\"x\n  y\"") || u.text.contains("\"multi\nline\" here");
+            !has || ((u.key.contains("@fn/L0") || u.key.contains("@top/L0")) && u.cfg.kv.is_empty())
+        });
         if thorough {
             for (name, text, kv) in super::c09::corpus_b() {
                 let mut cfg = crate::fmt::Cfg::new(2015);
